@@ -72,6 +72,21 @@ fn align(inp: &amod::ABody, out: &amod::ABody, inserted: &mut Vec<usize>) -> Opt
     Some(map)
 }
 
+/// two-function modules whose second function's body has a size on either side of the 128-byte size-LEB boundary, in the
+/// input (sizes 120..136 with and without nops that the round trip drops) - so that input and output sizes straddle it
+pub fn boundary_bodies() -> Vec<(String, Vec<u8>)> {
+    let mut v = vec![];
+    for a in 0..2usize { for b in 36..44usize { for nops in 0..3usize {
+        // units: `i32.const 100 drop` = 4 bytes, `i32.const 1 drop` = 3 bytes, `nop` = 1 byte (dropped by walrus); + locals(1) + `i32.const 0`(2) + end(1)
+        let size_in = 4 * a + 3 * b + nops + 4; let size_out = 4 * a + 3 * b + 4;
+        if !((125..=131).contains(&size_in) || (125..=131).contains(&size_out)) { continue; }
+        let mut wat = String::from("(module (func (export \"small\") (result i32) i32.const 7) (func (export \"sized\") (result i32) ");
+        for _ in 0..nops { wat.push_str("nop "); } for _ in 0..a { wat.push_str("i32.const 100 drop "); } for _ in 0..b { wat.push_str("i32.const 1 drop "); }
+        wat.push_str("i32.const 0) (func (export \"after\") (result i32) i32.const 9 i32.const 8 drop))");
+        if let Ok(w) = wat::parse_str(&wat) { v.push((format!("body-size-in{}-out{}", size_in, size_out), w)); } } } }
+    v
+}
+
 pub fn oracle(name: &str, wasm: &[u8], o: &CtObs, viol: &mut Vec<Json>) {
     let v = |class: &str, what: String| Json::obj(vec![("class", Json::s(class)), ("props", Json::s("C11")), ("what", Json::s(format!("{}: {}", name, what))), ("input", Json::s(crate::c03::hex(wasm)))]);
     let (a, b) = match (amod::decode(wasm), amod::decode(&o.out)) { (Ok(a), Ok(b)) => (a, b), _ => return };
@@ -148,6 +163,7 @@ pub fn main(args: &[String]) {
         let mut wat = String::from("(module"); for i in 0..ni { wat.push_str(&format!(" (import \"env\" \"f{}\" (func))", i)); }
         for i in 0..nl { wat.push_str(&format!(" (func (export \"e{}\") (result i32) i32.const {})", i, i)); } for _ in 0..unused { wat.push_str(" (func nop)"); } wat.push(')');
         if let Ok(b) = wat::parse_str(&wat) { inputs.push((format!("count-boundary-{}i-{}l-{}u", ni, nl, unused), b)); } }
+    inputs.extend(boundary_bodies());
     let (mut n_cases, mut n_pairs, mut n_funcs, mut n_unmodelled) = (0u64, 0u64, 0u64, 0u64);
     let (mut n_gc, mut n_edit) = (0u64, 0u64);
     for (name, wasm) in &inputs {
